@@ -1,9 +1,82 @@
 import Gms.Driver.Proto
 import Gms.Model.Wire
-open Gms.Proto Gms.Wire Gms.Num
+import Gms.Model.WireCs
+open Gms.Proto
 
 /-! Driver for C28: `(sql ty val)`, `(clamp ity kind v)`, `(free kind tname value textLen max)`,
-`(wire wty val)`. -/
+`(wire wty val)`, and the character-set streams `(cslen csty res)`, `(cs csty res csval)`,
+`(cswirelen csty res)`, `(cswire csty res csval)`. -/
+
+namespace CsDrv
+open Gms.WireCs
+
+def parseCs : Sexp → Option Cs
+  | .atom n => Cs.ofName? n
+  | _ => none
+
+def parseRes : Sexp → Option Res
+  | .atom "null" => some .null
+  | .atom n => (Cs.ofName? n).map .cs
+  | _ => none
+
+def parseStr : Sexp → Option Str
+  | .list xs => xs.mapM Sexp.nat?
+  | _ => none
+
+def parseTy : Sexp → Option Ty
+  | .list (.atom "enum" :: c :: ms) =>
+    match parseCs c, ms.mapM parseStr with
+    | some c, some ms => some (.enum c ms)
+    | _, _ => none
+  | .list (.atom "set" :: c :: ms) =>
+    match parseCs c, ms.mapM parseStr with
+    | some c, some ms => some (.set c ms)
+    | _, _ => none
+  | .list [.atom "char", c, n] | .list [.atom "varchar", c, n] =>
+    match parseCs c, n.nat? with
+    | some c, some n => some (.char c n)
+    | _, _ => none
+  | .list [.atom "text", c, mb] =>
+    match parseCs c, mb.nat? with
+    | some c, some mb => some (.text c mb)
+    | _, _ => none
+  | _ => none
+
+def parseVal : Sexp → Option Val
+  | .list [.atom "idx", i] => i.nat?.map .idx
+  | .list [.atom "bits", b] => b.nat?.map .bits
+  | .list (.atom "str" :: cps) => (cps.mapM Sexp.nat?).map .str
+  | _ => none
+
+def hexN (bs : List Nat) : String := hex (bs.map UInt8.ofNat)
+
+/-- `(cslen ty res)`: the announced length alone (correspondence of the length computation; the
+property says nothing about the number in isolation, hence Spec `?`). -/
+def handleLen (ty res : Sexp) : String :=
+  match parseTy ty, parseRes res with
+  | some t, some r => answer s!"max={announced r t}" "?"
+  | _, _ => answer "bad-case"
+
+/-- `(cs ty res val)` / `(cswire ty res val)`: the transcoded text, whether it fits the announced
+length, whether it decodes back. -/
+def handleVal (wire : Bool) (ty res v : Sexp) : String :=
+  match parseTy ty, parseRes res, parseVal v with
+  | some t, some r, some v =>
+    if !decide (Valid t v) then answer "bad-case:invalid-value" else
+    match sentText r t v with
+    | none => answer "err" "?"
+    | some bs =>
+      let fits := if bs.length ≤ announced r t then "yes" else "no"
+      let rt := if roundTrip r t v then "ok" else "no"
+      let tail := if wire then "" else "|sv=same"
+      let impl := s!"{hexN bs}|fits={fits}|rt={rt}{tail}"
+      let spec := s!"{hexN bs}|fits=yes|rt=ok{tail}"
+      if impl == spec then answer impl else answer impl spec (regionOf r t)
+  | _, _, _ => answer "bad-case"
+
+end CsDrv
+
+open Gms.Wire Gms.Num
 
 def hexB (bs : Bytes) : String := hex bs
 
@@ -89,6 +162,10 @@ def handle (p : List Sexp) : String :=
         if impl == spec then answer impl else answer impl spec (wireRegionOf wt v)
       | _, _ => answer "bad-case:type-mismatch"
     | _, _ => answer "bad-case"
+  | [Sexp.list [Sexp.atom "cslen", ty, res]] => CsDrv.handleLen ty res
+  | [Sexp.list [Sexp.atom "cswirelen", ty, res]] => CsDrv.handleLen ty res
+  | [Sexp.list [Sexp.atom "cs", ty, res, v]] => CsDrv.handleVal false ty res v
+  | [Sexp.list [Sexp.atom "cswire", ty, res, v]] => CsDrv.handleVal true ty res v
   | _ => answer "bad-case"
 
 def main : IO Unit := runPure handle
